@@ -211,7 +211,8 @@ Proof.
           [|rewrite nth_overflow in Ef by exact Hge; destruct Ef].
         assert (Hc : tree_all_d (rets_in R disc hp) 1 c).
         { apply tree_all_d_inv in Hri. destruct Hri as [_ Hk]. eapply Hk; [apply nth_In; exact Hlt|exact Ef]. }
-        apply (reroot R disc h HR Hd hp 0 c Hhp) in Hc.
+        assert (Hc0 : tree_all_d (rets_in R disc h) 0 c) by (eapply reroot; eauto).
+        clear Hc; rename Hc0 into Hc.
         eapply (mcts_run_range A term R disc h HA HR Hd); try exact H; auto.
         * unfold allocate; cbn [acts]; apply length_resize.
         * apply rin_allocate. exact Hc.
@@ -250,7 +251,8 @@ Proof.
           [|rewrite nth_overflow in Ef by exact Hge; destruct Ef].
         assert (Hc : tree_all_d (rets_in R disc hp) 1 c).
         { apply tree_all_d_inv in Hri. destruct Hri as [_ Hk]. eapply Hk; [apply nth_In; exact Hlt|exact Ef]. }
-        apply (reroot R disc h HR Hd hp 0 c Hhp) in Hc.
+        assert (Hc0 : tree_all_d (rets_in R disc h) 0 c) by (eapply reroot; eauto).
+        clear Hc; rename Hc0 into Hc.
         destruct (bel c) as [|p0 pt] eqn:Eb.
         * eapply Hfresh; eauto.
         * eapply (pomcp_run_range A term R disc h HA HR Hd); try exact H; auto.
@@ -258,4 +260,39 @@ Proof.
           -- apply rin_allocate. exact Hc.
       + eapply Hfresh; eauto. }
   split; [exact Hr'|]. eapply good_rets_value; eauto.
+Qed.
+
+(* /repo today (rl_orig): horizon 2, unit rewards, no discount: the root estimate is 4 > 2 *)
+Lemma mcts_range_refuted_lemma : exists A term disc R iters s h tr g' a tr' sts,
+  0 < A /\ (0 <= R)%Q /\ (0 <= disc)%Q /\ trace_ok A tr /\ rewards_in R tr /\
+  mcts_op A term disc rl_orig iters node0 (MFresh s h) tr = (g', a, tr', sts) /\
+  ~ tree_all_d (value_in R disc h) 0 g'.
+Proof.
+  exists 1, (fun _ => false), 1%Q, 1%Q, 1, 0, 2.
+  exists [Ev 0 0 0 0 1%Q; Ev 0 0 0 0 1%Q; Ev 0 0 0 0 1%Q; Ev 0 0 0 0 1%Q].
+  eexists. eexists. eexists. eexists.
+  split; [lia|]. split; [lra|]. split; [lra|]. split; [repeat constructor|].
+  split; [repeat constructor; cbn; lra|].
+  split; [vm_compute; reflexivity|].
+  intro H. apply tree_all_d_inv in H. destruct H as [H _].
+  unfold value_in in H. cbn [acts] in H. inversion H as [|x l Hx Hl]; subst.
+  cbn [aN aV] in Hx. specialize (Hx ltac:(lia)). destruct Hx as [_ Hx].
+  vm_compute in Hx. apply Hx. reflexivity.
+Qed.
+
+Lemma pomcp_range_refuted_lemma : exists A term disc R iters ps h tr g' a tr' sts,
+  0 < A /\ (0 <= R)%Q /\ (0 <= disc)%Q /\ trace_ok A tr /\ rewards_in R tr /\
+  pomcp_op A term disc rl_orig iters node0 (PFresh ps h) tr = (g', a, tr', sts) /\
+  ~ tree_all_d (value_in R disc h) 0 g'.
+Proof.
+  exists 1, (fun _ => false), 1%Q, 1%Q, 1, [0], 1.
+  exists [Ev 0 0 0 0 1%Q; Ev 0 0 0 0 1%Q; Ev 0 0 0 0 1%Q].
+  eexists. eexists. eexists. eexists.
+  split; [lia|]. split; [lra|]. split; [lra|]. split; [repeat constructor|].
+  split; [repeat constructor; cbn; lra|].
+  split; [vm_compute; reflexivity|].
+  intro H. apply tree_all_d_inv in H. destruct H as [H _].
+  unfold value_in in H. cbn [acts] in H. inversion H as [|x l Hx Hl]; subst.
+  cbn [aN aV] in Hx. specialize (Hx ltac:(lia)). destruct Hx as [_ Hx].
+  vm_compute in Hx. apply Hx. reflexivity.
 Qed.
